@@ -120,6 +120,7 @@ var checks = []Check{
 		Rule:        "distinct inputs (byte strings, structured requests, backend reply texts/shapes), each evaluated once per enumerated environment (map order)",
 		Assumptions: append([]string{"memory is measured as runtime.MemStats.Sys inside the isolated child", "alphabet chosen from the RESP type bytes, digits, CR, LF, a letter and space"}, engineAssumptions...),
 		Jobs: []Job{
+			{Pkg: "proc/redis", Scenarios: []string{"C02/banned-pipeline-faults"}, Shards: 16, QuickS: 90, ThoroughS: 240}, // a failing connection right behind a request the filter answered
 			{Pkg: "proc/redis", Scenarios: []string{"C11/through-the-stack"}, Shards: 8, QuickS: 90, ThoroughS: 240},
 			{Pkg: "proc/redis", Scenarios: []string{"C02/client"}, Shards: 16, QuickS: 120, ThoroughS: 240}, // malformed backend bytes under every schedule of senders, reader and writer
 			{Pkg: "proc/redis", Scenarios: []string{"C11/inputs"}, Shards: 16, QuickS: 150, ThoroughS: 240},
@@ -153,7 +154,8 @@ var checks = []Check{
 			{Pkg: "proc/redis", Scenarios: []string{"C07/histories"}, Shards: 16, QuickS: 90, ThoroughS: 240},
 			{Pkg: "proc/redis", Scenarios: []string{"C02/upstream-redirect"}, Shards: 16, QuickS: 150, ThoroughS: 240},
 			{Pkg: "proc/redis", Scenarios: []string{"C02/stack-race"}, Race: true, Shards: 1, QuickS: 120, ThoroughS: 240},
-			{Pkg: "proc/redis", Scenarios: []string{"C14/topology"}, Shards: 4, QuickS: 60, ThoroughS: 120}, // after a replica changed its master (or a partial-view refresh) requests go where the cluster says
+			{Pkg: "proc/redis", Scenarios: []string{"C14/topology"}, Shards: 4, QuickS: 60, ThoroughS: 120},      // after a replica changed its master (or a partial-view refresh) requests go where the cluster says
+			{Pkg: "proc/redis", Scenarios: []string{"C09/redis-collect"}, Shards: 8, QuickS: 90, ThoroughS: 240}, // a backend client stopped (host removal) while the hot-key collection runs: backends must stay reachable
 			{Pkg: "proc/redis", Scenarios: []string{"C07/concurrent-loss", "C07/connect-lost", "C07/cold-start"}, Shards: 16, QuickS: 90, ThoroughS: 240},
 			{Pkg: "proc/redis", Scenarios: []string{"C07/refresh-in-flight"}, Shards: 16, QuickS: 60, ThoroughS: 240},
 		},
